@@ -1,5 +1,6 @@
 import GeoVerif.Model.MathF
 import GeoVerif.Proofs.F64Val
+import GeoVerif.Proofs.TwoSum
 import Mathlib.Analysis.SpecialFunctions.Trigonometric.Basic
 import Mathlib.Tactic.Ring
 import Mathlib.Tactic.Linarith
@@ -270,6 +271,60 @@ example :
     s1.1.isFinite = true ∧ s2.1.isFinite = true ∧
     Dy.eq (Dy.add s1.1.toDy s1.2.toDy) (Dy.add (remainder (F64.neg x) td).toDy (remainder y td).toDy) = true ∧
     Dy.eq (Dy.add s2.1.toDy s2.2.toDy) (Dy.add (remainder s1.1 td).toDy s1.2.toDy) = true := by decide
+
+/-! ## TwoSum: `Math::sum` is error free, and `AngDiff` without hypotheses -/
+
+/-- **`Math::sum` is error free** (property C16, last sentence; Knuth's TwoSum for the executable binary64 model,
+round-to-nearest-even with gradual underflow).  For all finite representable `u`, `v` with `|u|, |v| ≤ 2^1018`
+(no overflow in any of the six operations): the first component is the floating-point sum `u + v` (the correctly
+rounded exact sum), the second is finite and representable, and `s + t = u + v` **exactly**. -/
+theorem sum_exact (u v : F64) (hu : F64.IsRep u) (hv : F64.IsRep v)
+    (hub : |u.val| ≤ (2:ℚ) ^ (1018:ℤ)) (hvb : |v.val| ≤ (2:ℚ) ^ (1018:ℤ)) :
+    (MathF.sum u v).1 = u + v ∧
+    (MathF.sum u v).1.isFinite = true ∧ (MathF.sum u v).2.isFinite = true ∧
+    IsRN 53 (-1074) (u.val + v.val) (MathF.sum u v).1.val ∧ Rep (MathF.sum u v).2.val ∧
+    (MathF.sum u v).1.val + (MathF.sum u v).2.val = u.val + v.val :=
+  F64.twoSum_exact u v hu hv hub hvb
+
+theorem small_le (x : ℚ) (h : |x| ≤ 180) : |x| ≤ (2:ℚ) ^ (1018:ℤ) := by
+  calc |x| ≤ 180 := h
+    _ ≤ (2:ℚ) ^ (8:ℤ) := by norm_num
+    _ ≤ (2:ℚ) ^ (1018:ℤ) := Dy.two_zpow_le (by norm_num)
+
+/-- **AngDiff is exact modulo 360** — the full statement, no TwoSum hypothesis: for all finite representable `x`, `y`,
+`d + e ≡ y − x (mod 360)` exactly, with `(d, e) = AngDiff(x, y)`. -/
+theorem angDiff_exact (sx sy : Bool) (mx my : ℕ) (ex ey : ℤ)
+    (hx : F64.IsRep (F64.fin sx mx ex)) (hy : F64.IsRep (F64.fin sy my ey)) :
+    ∃ n : ℤ, (angDiff (F64.fin sx mx ex) (F64.fin sy my ey)).1.val + (angDiff (F64.fin sx mx ex) (F64.fin sy my ey)).2.val
+      = (F64.fin sy my ey).val - (F64.fin sx mx ex).val - 360 * n := by
+  have hnx := F64.IsRep.neg_fin sx mx ex hx
+  obtain ⟨ru, bu⟩ := F64.remainder360_rep (!sx) mx ex hnx
+  obtain ⟨rv, bv⟩ := F64.remainder360_rep sy my ey hy
+  have e1 : remainder (F64.neg (F64.fin sx mx ex)) td = remainder (F64.fin (!sx) mx ex) (F64.fin false 360 0) := rfl
+  have e2 : remainder (F64.fin sy my ey) td = remainder (F64.fin sy my ey) (F64.fin false 360 0) := rfl
+  obtain ⟨_, f1, f1t, r1, rep1t, hs1⟩ := F64.twoSum_exact _ _ ru rv (small_le _ bu) (small_le _ bv)
+  obtain ⟨_, lowv⟩ := F64.twoSum_low_le _ _ ru rv (small_le _ bu) (small_le _ bv)
+  -- the second call
+  obtain ⟨s3, m3, e3, hd1⟩ := F64.exists_fin_of_isFinite _ f1
+  have rep1 : F64.IsRep (F64.fin s3 m3 e3) := by
+    rw [← hd1]; exact ⟨f1, r1.rep⟩
+  obtain ⟨ru2, bu2⟩ := F64.remainder360_rep s3 m3 e3 rep1
+  have e3' : remainder (MathF.sum (remainder (F64.fin (!sx) mx ex) (F64.fin false 360 0))
+      (remainder (F64.fin sy my ey) (F64.fin false 360 0))).1 td = remainder (F64.fin s3 m3 e3) (F64.fin false 360 0) := by
+    rw [hd1]; rfl
+  have hv2 : |(MathF.sum (remainder (F64.fin (!sx) mx ex) (F64.fin false 360 0))
+      (remainder (F64.fin sy my ey) (F64.fin false 360 0))).2.val| ≤ (2:ℚ) ^ (1018:ℤ) :=
+    small_le _ (le_trans lowv bv)
+  obtain ⟨_, f2, _, _, _, hs2⟩ := F64.twoSum_exact _ _ ru2 ⟨f1t, rep1t⟩ (small_le _ bu2) hv2
+  have := angDiff_exact_partial sx sy mx my ex ey
+  simp only [] at this
+  rw [e1, e2, e3'] at this
+  exact this f1 f2 hs1 hs2
+
+/-- non-vacuity: 10.5 and 350.25 are finite representable values -/
+example : F64.IsRep (F64.fin false 21 (-1)) ∧ F64.IsRep (F64.fin false 1401 (-2)) :=
+  ⟨⟨rfl, 21, -1, by norm_num, by norm_num, by rw [F64.val_fin]; simp⟩,
+   ⟨rfl, 1401, -2, by norm_num, by norm_num, by rw [F64.val_fin]; simp⟩⟩
 
 /-! ## `atan2d`: the octant scheme is correct over ℝ -/
 
